@@ -217,6 +217,44 @@ func genPolicy(c *Ctx) {
 			}
 		}
 	}
+	// equality and ordering on integers at and beyond the 53-bit range (constructor-built policies may hold them),
+	// against the same value as data: == must hold exactly when >= and <= both do
+	{
+		ints := []datamodel.Node{basicnode.NewInt(9007199254740991), basicnode.NewInt(9007199254740992), basicnode.NewInt(1 << 60),
+			basicnode.NewInt(math.MaxInt64), basicnode.NewInt(math.MinInt64), basicnode.NewInt(-9007199254740992), basicnode.NewInt(0)}
+		for _, a := range ints {
+			for _, b := range ints {
+				d := mkMap(ent{"a", b}, ent{"l", mkList(b, a)})
+				for _, op := range ops {
+					run1("pol/bigint", []pstmt{{kind: op, sel: ".a", val: a}}, d)
+				}
+				run1("pol/bigint", []pstmt{{kind: "==", sel: ".l", val: mkList(a, b)}}, d)
+				run1("pol/bigint", []pstmt{{kind: "not", subs: []pstmt{{kind: "==", sel: ".a", val: a}}}}, d)
+				run1("pol/bigint", []pstmt{{kind: "any", sel: ".l", subs: []pstmt{{kind: "==", sel: ".", val: a}}}}, d)
+			}
+		}
+	}
+	// like on text that is not UTF-8 / holds U+FFFD, and on values that are not strings behind optional selectors
+	{
+		bs := []string{"caf\xe9", "caf\xe8 au lait", "caf\ufffd", "\xff", "\xfe", "é", "\ufffd"}
+		ps := []string{"caf\xe9*", "caf\ufffd*", "\\\xff", "\\\ufffd", "*\\\ufffd", "*", "caf*"}
+		for _, p := range ps {
+			for _, b := range bs {
+				d := mkMap(ent{"s", basicnode.NewString(b)}, ent{"l", mkList(basicnode.NewString(b))})
+				run1("pol/like-bytes", []pstmt{{kind: "like", sel: ".s", pat: p}}, d)
+				run1("pol/like-bytes", []pstmt{{kind: "not", subs: []pstmt{{kind: "like", sel: ".s", pat: p}}}}, d)
+				run1("pol/like-bytes", []pstmt{{kind: "any", sel: ".l", subs: []pstmt{{kind: "like", sel: ".", pat: p}}}}, d)
+			}
+		}
+		for _, sel := range []string{".a", ".a?", ".a[0]", ".a[0]?", ".a.b?", ".[]", ".a[]?"} {
+			for _, j := range []string{`{"a":null}`, `{"a":5}`, `{"a":[null]}`, `{"a":["abc"]}`, `{"a":{"b":null}}`, `{"a":"abc"}`, `{}`, `{"a":[]}`, `null`} {
+				for _, p := range []string{"*", "abc", "a*"} {
+					run1("pol/like-kinds", []pstmt{{kind: "like", sel: sel, pat: p}}, J(j))
+					run1("pol/like-kinds", []pstmt{{kind: "any", sel: ".", subs: []pstmt{{kind: "like", sel: sel, pat: p}}}}, mkList(J(j)))
+				}
+			}
+		}
+	}
 	// 2. random nested statements
 	var gen func(depth int) pstmt
 	leaf := func() pstmt {
